@@ -164,10 +164,15 @@ pub const SENTINEL_KEY: u32 = 4_000_000_000;
 /// recorded every earlier notification has been too.  Returns false if it never arrived
 /// (inconclusive, never a violation).
 pub fn flush_listener(cache: &TCache, rec: &Recorder, next_wid: &AtomicU64) -> bool {
-  for _ in 0..100 {
+  for _ in 0..20 {
     let wid = next_wid.fetch_add(1, Ordering::SeqCst);
-    let _ = cache.entry(SENTINEL_KEY).or_insert(Val { key: SENTINEL_KEY, wid, n: 0 }, 0);
-    let _ = cache.remove(&SENTINEL_KEY);
+    let got = cache.entry(SENTINEL_KEY).or_insert(Val { key: SENTINEL_KEY, wid, n: 0 }, 0);
+    let removed = cache.remove(&SENTINEL_KEY);
+    if got.wid != wid || removed.map(|v| v.wid) != Some(wid) {
+      // the sentinel protocol itself is broken (a previous sentinel is still there / remove did not
+      // return it): cannot flush
+      return false;
+    }
     let mut g = rec.log.lock().unwrap();
     let deadline = std::time::Instant::now() + Duration::from_millis(100);
     loop {
@@ -229,6 +234,7 @@ pub struct Exec {
   outstanding: Arc<(Mutex<usize>, Condvar)>,
   pub spawned: AtomicUsize,
   handle: Mutex<Option<std::thread::JoinHandle<()>>>,
+  extra: Mutex<Vec<std::thread::JoinHandle<()>>>,
 }
 
 impl Exec {
@@ -252,7 +258,32 @@ impl Exec {
         }
       })
       .unwrap();
-    Arc::new(Exec { tx: Mutex::new(Some(tx)), outstanding, spawned: AtomicUsize::new(0), handle: Mutex::new(Some(handle)) })
+    Arc::new(Exec { tx: Mutex::new(Some(tx)), outstanding, spawned: AtomicUsize::new(0), handle: Mutex::new(Some(handle)), extra: Mutex::new(Vec::new()) })
+  }
+  /// `n` worker threads sharing one queue (loader bodies that block on a harness gate must not
+  /// stop other keys' tasks).
+  pub fn start_pool(clock: Arc<AtomicU64>, n: usize) -> Arc<Exec> {
+    let (tx, rx) = std::sync::mpsc::channel::<Task>();
+    let rx = Arc::new(Mutex::new(rx));
+    let outstanding = Arc::new((Mutex::new(0usize), Condvar::new()));
+    let mut hs = Vec::new();
+    for _ in 0..n {
+      let (rx, o2, clock) = (rx.clone(), outstanding.clone(), clock.clone());
+      hs.push(std::thread::spawn(move || {
+        fibre_cache::verif::install(Some(clock));
+        loop {
+          let task = match rx.lock().unwrap().recv() {
+            Ok(t) => t,
+            Err(_) => return,
+          };
+          let _ = std::panic::catch_unwind(std::panic::AssertUnwindSafe(|| block_on(task)));
+          let mut g = o2.0.lock().unwrap();
+          *g -= 1;
+          o2.1.notify_all();
+        }
+      }));
+    }
+    Arc::new(Exec { tx: Mutex::new(Some(tx)), outstanding, spawned: AtomicUsize::new(0), handle: Mutex::new(None), extra: Mutex::new(hs) })
   }
   /// Blocks until every spawned task has finished; false on timeout.
   pub fn wait_idle(&self, timeout: Duration) -> bool {
@@ -270,6 +301,9 @@ impl Exec {
   pub fn stop(&self) {
     self.tx.lock().unwrap().take();
     if let Some(h) = self.handle.lock().unwrap().take() {
+      let _ = h.join();
+    }
+    for h in self.extra.lock().unwrap().drain(..) {
       let _ = h.join();
     }
   }
